@@ -1,5 +1,7 @@
 #!/bin/bash
+# runs in the live /verif (evidence must come from here): do not edit bin/ or spec/ while it runs
 cd /verif
-for c in C10 C11 C13 C01 C14 C06 C09; do
-  python3 bin/check $c --tier thorough 2>&1 | grep -E "^VIOLATION|^KNOWN|TOOL|violations" | cut -c1-250
+for c in "$@"; do
+  python3 bin/check $c --tier thorough 2>&1 | grep -E "^VIOLATION|^KNOWN|TOOL|violations|^note" | cut -c1-250
 done
+echo QUEUE-DONE
